@@ -3,9 +3,10 @@
 //   x86::Assembler::_emit with DiagnosticOptions::kValidateAssembler off and on.
 // Line protocol (stdin -> stdout, one answer per command):
 //   NI <arch> <id>                -> NI <0 ok | 1 error> <name-hex|-> <id of string_to_inst_id(name)>
+//   NA <arch> <id>                -> NA <0 ok | 1 error> <formatted name (InstStringifyOptions::kAliases) hex|->
 //   NS <arch> <hex|->             -> NS <id>
 //   V <mode> <inst> <options> <extra_type> <extra_id> <nops> <ops...>   -> V <err>
-//   E <mode> <inst> <options> <extra_type> <extra_id> <nops> <ops...>   -> E <validate err> <emit err, validation off> <bytes|-> <emit err, validation on> <bytes|->
+//   E <mode> <inst> <options> <extra_type> <extra_id> <nops> <ops...>   -> E <validate err> <emit err, validation off> <bytes|-> <emit err, validation on> <bytes|-> <Builder emit err (kValidateIntermediate)> <finalize err> <bytes|->
 //   ops:  R <reg_type> <id> | M <size> <base_type> <base_id> <index_type> <index_id> <shift> <offset> <segment> <bcst> <home> | I <int64> | L | N
 //   arch: 0 = x86 (32-bit), 1 = x64, 2 = AArch64;  mode: 0 = x86, 1 = x64, +2 = ValidationFlags::kEnableVirtRegs (V only)
 #include <cstdio>
@@ -95,6 +96,28 @@ static Error run_emit(const Cmd& c, bool validate, std::string& bytes) {
   return err;
 }
 
+// Builder path: the instruction is recorded by x86::Builder with DiagnosticOptions::kValidateIntermediate, then finalize() serializes
+// the node list through an Assembler. eb = error of the Builder's emit (the validator's verdict), ef = error of finalize().
+static void run_builder(const Cmd& c, Error& eb, Error& ef, std::string& bytes) {
+  CodeHolder code;
+  Environment env((c.mode & 1) ? Arch::kX64 : Arch::kX86);
+  code.init(env);
+  x86::Builder b(&code);
+  b.add_diagnostic_options(DiagnosticOptions::kValidateIntermediate);
+  Label l = b.new_label();
+  b.bind(l);
+  b.set_inst_options(InstOptions(c.options));
+  if (c.extra_type != 0) { Reg r; r._init_reg(RegUtils::signature_of(RegType(c.extra_type)), c.extra_id); b.set_extra_reg(r); }
+  eb = b.emit_op_array(c.inst, c.ops, c.nops);
+  ef = Error::kOk;
+  bytes = "-";
+  if (eb == Error::kOk) {
+    ef = b.finalize();
+    CodeBuffer& buf = code.text_section()->buffer();
+    bytes = hex_of((const char*)buf.data(), buf.size());
+  }
+}
+
 int main() {
   std::string line;
   while (std::getline(std::cin, line)) {
@@ -106,6 +129,11 @@ int main() {
       Error e = InstAPI::inst_id_to_string(arch_of(a), id, InstStringifyOptions::kNone, s);
       uint32_t back = (e == Error::kOk) ? InstAPI::string_to_inst_id(arch_of(a), s.data(), s.size()) : 0;
       printf("NI %u %s %u\n", unsigned(e != Error::kOk), hex_of(s.data(), s.size()).c_str(), back);
+    } else if (k == "NA") {
+      int a; uint32_t id; in >> a >> id;
+      String s;
+      Error e = InstAPI::inst_id_to_string(arch_of(a), id, InstStringifyOptions::kAliases, s);
+      printf("NA %u %s\n", unsigned(e != Error::kOk), hex_of(s.data(), s.size()).c_str());
     } else if (k == "NS") {
       int a; std::string h; in >> a >> h;
       std::string s = unhex(h);
@@ -121,7 +149,9 @@ int main() {
       std::string b0, b1;
       Error e0 = run_emit(c, false, b0);
       Error e1 = run_emit(c, true, b1);
-      printf("E %u %u %s %u %s\n", unsigned(ve), unsigned(e0), b0.c_str(), unsigned(e1), b1.c_str());
+      Error eb, ef; std::string bb;
+      run_builder(c, eb, ef, bb);
+      printf("E %u %u %s %u %s %u %u %s\n", unsigned(ve), unsigned(e0), b0.c_str(), unsigned(e1), b1.c_str(), unsigned(eb), unsigned(ef), bb.c_str());
     } else {
       printf("? unknown\n");
     }
